@@ -13,7 +13,7 @@ def belongs(clause, pid):
 
 def mc_cfg(profile, quick, invariants, properties):
     if profile == "imm":
-        consts = dict(Sizes="{2}", FreeValues="{3, 5}", MaxWriters=3 if quick else 3, MaxOps=5 if quick else 7,
+        consts = dict(Sizes="{2}", FreeValues="{3, 5}", MaxWriters=3 if quick else 3, MaxOps=4 if quick else 7,
                       Enablers='{"wA"}', Shares='{"0", "1"}')
     else:
         consts = dict(Sizes="{2}", FreeValues="{5}", MaxWriters=0, MaxOps=2 if quick else 3,
